@@ -77,6 +77,8 @@ def ceval(node, env, scope=None, depth=0):
                 elif isinstance(op, ast.GtE): ok = left >= right
                 elif isinstance(op, ast.Is): ok = left is right
                 elif isinstance(op, ast.IsNot): ok = left is not right
+                elif isinstance(op, ast.In): ok = left in right
+                elif isinstance(op, ast.NotIn): ok = left not in right
                 else: raise Unknown(t)
             except TypeError:
                 raise Unknown(t)
@@ -84,9 +86,32 @@ def ceval(node, env, scope=None, depth=0):
                 return False
             left = right
         return True
+    if isinstance(node, (ast.Tuple, ast.List)):
+        return tuple(ceval(e, env, scope, depth + 1) for e in node.elts)
     if isinstance(node, ast.IfExp):
         return ceval(node.body if ceval(node.test, env, scope, depth + 1) else node.orelse, env, scope, depth + 1)
     if isinstance(node, ast.Call) and isinstance(node.func, ast.Name) and node.func.id in ("int", "bool") and len(node.args) == 1:
         v = ceval(node.args[0], env, scope, depth + 1)
         return int(v) if node.func.id == "int" else bool(v)
     raise Unknown(t)
+
+
+def select_return(fnode, env, scope=None):
+    """The `return` statement reached in a function whose control flow consists of if/elif/else on
+    integer predicates (evaluated with ceval under env).  Raises Unknown outside that fragment."""
+    def block(stmts):
+        for st in stmts:
+            if isinstance(st, ast.Return):
+                return st
+            if isinstance(st, ast.If):
+                r = block(st.body if ceval(st.test, env, scope) else st.orelse)
+                if r is not None:
+                    return r
+            elif isinstance(st, (ast.Assign, ast.AugAssign, ast.Expr, ast.Pass, ast.Assert)):
+                continue
+            elif isinstance(st, ast.Raise):
+                raise Unknown("raise reached")
+            else:
+                raise Unknown("statement %s" % type(st).__name__)
+        return None
+    return block(fnode.body)
